@@ -39,6 +39,57 @@ theorem failure_stales_all {σ} (S : Store σ) (P : Params) (l : Loop σ) (t : I
   · simpa [natToF64Bits] using t5
 
 
+/-- A scrape whose body could not be read completely is handled exactly like a scrape whose request
+    failed: the cycle (next loop state and every storage event) does not depend on the part `read` of
+    the body that `readResponse` had already copied into the scrape buffer — `scrapeAndReport` takes
+    `buf.Bytes()` only `if scrapeErr == nil`. -/
+theorem read_failure_ignores_partial_body {σ} (S : Store σ) (P : Params) (l : Loop σ) (t : Int)
+    (read : List Item) : cycle S P l t (.readFail read) = cycle S P l t .err := rfl
+
+/-- **read_failure_stores_nothing_partial_body**. A scrape whose read failed (connection cut or timeout
+    in the middle of the body, `body_size_limit` reached) — WHATEVER prefix `read` of the body had been
+    read, cut inside a line, at a line boundary or after the last line — sends the storage, for every
+    storage behaviour: one staleness marker at the scrape time for EVERY series tracked by the previous
+    scrape (sorted) and nothing else before the reports (so no sample of `read`, no rollback), then the
+    five report samples with `up = 0` and ZERO counts (`scrape_samples_scraped`, `…_post_metric_relabeling`,
+    `scrape_series_added`), then `commit`; and it tracks nothing for the next scrape (no series of the
+    partial body can get a marker later). -/
+theorem read_failure_stores_nothing_partial_body {σ} (S : Store σ) (P : Params) (l : Loop σ) (t : Int)
+    (read : List Item) (h : l.c.cur = []) :
+    ∃ ms e1 e2 e3 e4 e5, (cycle S P l t (.readFail read)).2 = ms ++ [e1, e2, e3, e4, e5, Ev.commit] ∧
+      ms.map Ev.sig = (P.sortStale (l.c.prev.map fun p => ((l.c.ce p.2).ref, (l.c.ce p.2).lset))).map
+        (fun x => some (x.2, t, some staleBits)) ∧
+      e1.tv = some (t, some 0) ∧ e2.tv = some (t, none) ∧ e3.tv = some (t, some 0) ∧
+      e4.tv = some (t, some 0) ∧ e5.tv = some (t, some 0) ∧
+      (cycle S P l t (.readFail read)).1.c.prev = [] ∧ (cycle S P l t (.readFail read)).1.c.cur = [] := by
+  obtain ⟨ms, e1, e2, e3, e4, e5, hev, hms, t1, t2, t3, t4, t5⟩ := failure_stales_all S P l t h
+  refine ⟨ms, e1, e2, e3, e4, e5, ?_, hms, t1, t2, t3, t4, t5, ?_, ?_⟩
+  · rw [read_failure_ignores_partial_body]; exact hev
+  · obtain ⟨hok, _, hc, _⟩ := appendBody_empty S P t l.c l.st
+    simp only [cycle, Scrape.items, Scrape.isBody, hok, if_true]
+    rw [(report_spec S P _ t _ _).choose_spec.choose_spec.choose_spec.choose_spec.choose_spec.2.2.2.2.2.2.2, hc]
+    simpa [Cache.iterDone] using h
+  · obtain ⟨hok, _, hc, _⟩ := appendBody_empty S P t l.c l.st
+    simp only [cycle, Scrape.items, Scrape.isBody, hok, if_true]
+    rw [(report_spec S P _ t _ _).choose_spec.choose_spec.choose_spec.choose_spec.choose_spec.2.2.2.2.2.2.1, hc]
+    simp [Cache.iterDone]
+
+/-- a non-trivial instance of the hypothesis and of the partial body: the loop after a successful
+    scrape of two series; the failed read had already delivered a parseable sample of one of them -/
+example :
+    let P : Params := {
+      v2 := false, mutate := id, check := (fun _ => true), honorTs := true, trackTs := false,
+      sampleLimit := 0, maxTime := 10 ^ 9, reportLabels := (fun n => [⟨"__name__", n⟩]),
+      lsetLt := (fun a b => a.length < b.length) }
+    let x : Sample := { key := "a", labels := [⟨"__name__", "a"⟩], bits := 1, ts := none }
+    let y : Sample := { key := "b", labels := [⟨"__name__", "b"⟩], bits := 1, ts := none }
+    let l := (cycle dblStore P { st := {} } 1000 (.body [.sample x, .sample y])).1
+    l.c.cur = [] ∧ l.c.prev.length = 2 ∧
+      ((cycle dblStore P l 2000 (.readFail [.sample { x with bits := 27 }])).2.filter
+        (fun e => e.sig.map (·.2.2) == some (some staleBits))).length = 2 ∧
+      (cycle dblStore P l 2000 (.readFail [.sample { x with bits := 27 }])).2.length = 8 := by
+  decide
+
 /-- **failed_scrape_stores_nothing_but_reports**. If the append of a body fails (parse error, missing
     name, invalid labels, label limit, sample limit), then for every storage the cycle is: whatever
     the failed append had sent, `rollback`, then ONLY staleness markers at the scrape time, the five
@@ -179,6 +230,22 @@ theorem failure_stales_all_reachable {σ} (S : Store σ) (P : Params) (ops : Lis
   obtain ⟨ms, e1, e2, e3, e4, e5, h1, h2, _⟩ :=
     failure_stales_all S P l t (cur_empty_invariant S P ops { st := st0 } rfl)
   exact ⟨ms, e1, e2, e3, e4, e5, h1, h2⟩
+
+/-- **read_failure_stores_nothing_partial_body** along histories: after ANY history (including earlier
+    failed reads and storage interference), a scrape whose read fails after an arbitrary part of the
+    body marks every entry of `seriesPrev` stale, stores nothing else, reports `up = 0` with zero counts. -/
+theorem read_failure_stores_nothing_reachable {σ} (S : Store σ) (P : Params) (ops : List (HOp σ)) (st0 : σ)
+    (t : Int) (read : List Item) :
+    let l := runH S P { st := st0 } ops
+    ∃ ms e1 e2 e3 e4 e5, (cycle S P l t (.readFail read)).2 = ms ++ [e1, e2, e3, e4, e5, Ev.commit] ∧
+      ms.map Ev.sig = (P.sortStale (l.c.prev.map fun p => ((l.c.ce p.2).ref, (l.c.ce p.2).lset))).map
+        (fun x => some (x.2, t, some staleBits)) ∧
+      e1.tv = some (t, some 0) ∧ e3.tv = some (t, some 0) ∧ e4.tv = some (t, some 0) ∧
+      e5.tv = some (t, some 0) := by
+  intro l
+  obtain ⟨ms, e1, e2, e3, e4, e5, h1, h2, t1, _, t3, t4, t5, _⟩ :=
+    read_failure_stores_nothing_partial_body S P l t read (cur_empty_invariant S P ops { st := st0 } rfl)
+  exact ⟨ms, e1, e2, e3, e4, e5, h1, h2, t1, t3, t4, t5⟩
 
 /-- **cache_flush_preserves_semantics** (partial). Flushing (`iterDone(true)`, or the forced flush of
     `iterDone(false)`) only removes entries from the two lookup maps: the staleness sets, the entries
